@@ -302,11 +302,11 @@ pub fn gen_history(r: &mut Sm, maxops: usize) -> Vec<Op> {
             let offers = if r.chance(55) {
                 let k = r.below(5) as usize;
                 Some((0..k).map(|_| {
-                    let oid = if r.chance(15) && next_oid > 1 { id20(0x6f, 1 + r.below(next_oid as u64 - 1) as u8) } else { let o = id20(0x6f, next_oid); next_oid = next_oid.wrapping_add(1).max(1); o };
+                    let oid = if r.chance(25) && next_oid > 1 { id20(0x6f, 1 + r.below(next_oid as u64 - 1) as u8) } else { let o = id20(0x6f, next_oid); next_oid = next_oid.wrapping_add(1).max(1); o };
                     (oid, r.below(1000) as u32)
                 }).collect::<Vec<_>>())
             } else { None };
-            let answer = if r.chance(35) {
+            let answer = if r.chance(45) {
                 if !forwarded.is_empty() && r.chance(75) {
                     // an answer to an offer forwarded earlier -- usually from the right peer for the right torrent
                     let f = forwarded[r.below(forwarded.len() as u64) as usize];
@@ -346,6 +346,52 @@ pub fn gen_history(r: &mut Sm, maxops: usize) -> Vec<Op> {
     ops
 }
 
+/// histories about the life of outstanding offers (C09): one torrent, a few peers each on its own
+/// connection, offers of different ages from the same peer, some answered (which reorders the offerer's
+/// table), some renewed under the same offer id, then time passes beyond `max_offer_age` for the older
+/// ones only, a cleaning pass runs, and late answers arrive.
+pub fn gen_offer_aging(r: &mut Sm) -> Vec<Op> {
+    let mut ops = Vec::new();
+    let max_offer_age = r.pick(&[3u32, 5, 10]);
+    ops.push(Op::Cfg { max_offers: r.pick(&[1usize, 2, 10]), max_scrape: 255, max_peer_age: 1000, max_offer_age });
+    ops.push(Op::New);
+    let hash = id20(0x68, 1);
+    let fam = r.pick(&[4u8, 6]);
+    let npeers = r.pick(&[2u8, 3, 4]);
+    let mut now = 1u32;
+    for i in 0..npeers {
+        ops.push(Op::Ann { fam, consumer: i % 2, slot: 1 + i as u32, allowed: true, now, hash, pid: id20(0x2d, i), event: "started".into(), left: Some(5), offers: None, answer: None });
+    }
+    let mut oid = 1u8;
+    let rounds = 2 + r.below(4) as usize;
+    for _ in 0..rounds {
+        // peer 0 (sometimes another) sends offers; ids sometimes repeat an earlier one (renewal)
+        let p = if r.chance(75) { 0 } else { r.below(npeers as u64) as u8 };
+        let k = 1 + r.below(3) as usize;
+        let offers: Vec<([u8; 20], u32)> = (0..k).map(|_| {
+            let o = if r.chance(30) && oid > 1 { id20(0x6f, 1 + r.below(oid as u64 - 1) as u8) } else { let x = id20(0x6f, oid); oid += 1; x };
+            (o, r.below(1000) as u32)
+        }).collect();
+        ops.push(Op::Ann { fam, consumer: p % 2, slot: 1 + p as u32, allowed: true, now, hash, pid: id20(0x2d, p), event: "none".into(), left: Some(5), offers: Some(offers), answer: None });
+        // maybe an answer now (run_generated points it at a really forwarded offer)
+        if r.chance(50) {
+            let q = r.below(npeers as u64) as u8;
+            ops.push(Op::Ann { fam, consumer: q % 2, slot: 1 + q as u32, allowed: true, now, hash, pid: id20(0x2d, q), event: "none".into(), left: Some(5), offers: None, answer: Some((id20(0x2d, p), id20(0x6f, 1), 7)) });
+        }
+        now += r.pick(&[0u32, 1, 2, max_offer_age - 1, max_offer_age, max_offer_age + 1]);
+        if r.chance(55) { ops.push(Op::Cln { now, mode: "off".into(), list: vec![] }); }
+    }
+    // late answers, from every peer, after a last cleaning pass
+    now += r.pick(&[0u32, 1, max_offer_age - 1]);
+    ops.push(Op::Cln { now, mode: "off".into(), list: vec![] });
+    for _ in 0..(2 + r.below(4)) {
+        let q = r.below(npeers as u64) as u8;
+        ops.push(Op::Ann { fam, consumer: q % 2, slot: 1 + q as u32, allowed: true, now, hash, pid: id20(0x2d, q), event: "none".into(), left: Some(5), offers: None, answer: Some((id20(0x2d, 0), id20(0x6f, 1), 9)) });
+        if r.chance(30) { now += 1; }
+    }
+    ops
+}
+
 pub fn run_ops(out: &mut impl Write, ops: &[Op], seed: u64) {
     let mut ex = Exec::new(seed);
     for op in ops {
@@ -363,8 +409,8 @@ pub fn run_ops(out: &mut impl Write, ops: &[Op], seed: u64) {
 }
 
 /// generation interleaved with execution, so that answers can refer to offers the tracker really forwarded
-pub fn run_generated(out: &mut impl Write, r: &mut Sm, maxops: usize, seed: u64) {
-    let ops = gen_history(r, maxops);
+pub fn run_generated(out: &mut impl Write, r: &mut Sm, maxops: usize, seed: u64, aging: bool) {
+    let ops = if aging { gen_offer_aging(r) } else { gen_history(r, maxops) };
     let mut ex = Exec::new(seed);
     let mut forwarded: Vec<(String, String, String, String)> = Vec::new(); // hash, from pid, to conn, offer id
     let mut owner_pid: HashMap<String, String> = HashMap::new(); // conn -> pid last announced
@@ -381,7 +427,9 @@ pub fn run_generated(out: &mut impl Write, r: &mut Sm, maxops: usize, seed: u64)
         }
         if let Op::Ann { consumer, slot, hash, pid, answer, .. } = &mut op {
             if answer.is_some() && !forwarded.is_empty() && r.chance(70) {
-                let f = forwarded[r.below(forwarded.len() as u64) as usize].clone();
+                // often an old offer: answers that come after the offer aged out / was passed by a cleaning pass
+                let idx = if r.chance(45) { r.below((forwarded.len() as u64 + 3) / 4) as usize } else { r.below(forwarded.len() as u64) as usize };
+                let f = forwarded[idx].clone();
                 let me = format!("{}.{}", consumer, slot);
                 // announce as the connection that received the offer, with the peer id it uses
                 if f.2 == me || r.chance(50) {
@@ -432,6 +480,6 @@ pub fn run(out: &mut impl Write, seed: u64, cases: usize, maxops: usize, replay:
     let mut master = Sm::new(seed);
     for case in 0..cases {
         let mut r = master.fork(case as u64);
-        run_generated(out, &mut r, maxops, seed ^ case as u64);
+        run_generated(out, &mut r, maxops, seed ^ case as u64, case % 4 == 3);
     }
 }
